@@ -22,6 +22,9 @@ def text(name):
 # parameter override that switches the burial-dependent code paths on in
 # structures of a few dozen atoms (shipped values: Nmin 280, Nmax 560)
 BURIED = {'Nmin': 6, 'Nmax': 30}
+# burial switched on AND the four coupling thresholds relaxed, so that pairs of the micro-structures are found to be
+# non-covalently coupled (swap, alternative state, -d output paths become active); a configuration a user can write
+COUPLED = dict(BURIED, min_interaction_energy=0.01, max_intrinsic_pka_diff=20.0, min_swap_pka_shift=0.0, max_free_energy_diff=50.0)
 
 
 def run(pdb_text, args=(), transform=None, keep=None, write=False, after_read=None, params=None):
